@@ -26,6 +26,7 @@ func init() {
 func runC20(c *Check) {
 	c20Wrappers(c, "C20")
 	c20SubscriberPump(c, "C20")
+	c07Decorator(c, "C20")
 	c20Delay(c, "C20")
 	c20Metrics(c, "C20")
 }
@@ -663,38 +664,43 @@ func c20Metrics(c *Check, P string) {
 		c.Report(ok, P+".O3", "SUBSCRIBER-METRICS-ALWAYS", lit, inc.Pos(), k, "every path counts, except on the already-observed edge")
 	}
 	// labels
-	nlab := 0
-	AllInstrs(lit, func(in ssa.Instruction) {
+	label := func(in ssa.Instruction) (string, bool) {
 		mu, ok := in.(*ssa.MapUpdate)
 		if !ok {
-			return
+			return "", false
 		}
 		v, isS := ConstString(mu.Value)
-		if !isS {
-			return
+		_, isK := ConstString(mu.Key)
+		if !isS || !isK || (v != "acked" && v != "nacked") {
+			return "", false
 		}
-		nlab++
-		switch v {
-		case "acked":
-			c.Report(GuardedBy(lit, mu, []Edge{*ackedE}), P+".O3", "SUBSCRIBER-METRICS-LABEL", lit, mu.Pos(), "label acked", "the 'acked' label is set only on the Acked() case")
-		case "nacked":
-			c.Report(GuardedBy(lit, mu, []Edge{*nackedE}), P+".O3", "SUBSCRIBER-METRICS-LABEL", lit, mu.Pos(), "label nacked", "the 'nacked' label is set only on the Nacked() case")
-		default:
-			c.Report(false, P+".O3", "SUBSCRIBER-METRICS-LABEL", lit, mu.Pos(), "label "+v, "unexpected settlement label")
-		}
-	})
-	c.Floor(P+".O3", "settlement labels (acked, nacked)", nlab, 2)
-	for _, e := range []*Edge{ackedE, nackedE} {
-		re := ReachEdge(*e, nil)
-		n := 0
-		AllInstrs(lit, func(in ssa.Instruction) {
-			if mu, ok := in.(*ssa.MapUpdate); ok && re[mu] {
-				if _, isS := ConstString(mu.Value); isS {
-					n++
+		return v, true
+	}
+	for i, inc := range incs {
+		facts := LastLabelAt(lit, inc, [][]Edge{{*ackedE}, {*nackedE}}, label)
+		okLab := len(facts) > 0
+		var wit []string
+		sawA, sawN := false, false
+		for _, f := range facts {
+			switch {
+			case f.Took&1 != 0:
+				sawA = true
+				if f.Label != "acked" {
+					okLab = false
+					wit = append(wit, fmt.Sprintf("the Acked() case reaches Inc with label %q", f.Label))
 				}
+			case f.Took&2 != 0:
+				sawN = true
+				if f.Label != "nacked" {
+					okLab = false
+					wit = append(wit, fmt.Sprintf("the Nacked() case reaches Inc with label %q", f.Label))
+				}
+			default:
+				okLab = false
+				wit = append(wit, "Inc reachable without passing the settle select")
 			}
-		})
-		c.Report(n == 1, P+".O3", "SUBSCRIBER-METRICS-LABEL-EACH-CASE", lit, sw.Sel.Pos(), "case edge", "each case sets exactly one settlement label")
+		}
+		c.Report(okLab && sawA && sawN, P+".O3", "SUBSCRIBER-METRICS-LABEL", lit, inc.Pos(), fmt.Sprintf("Inc#%d label", i), "on every path to Inc the last settlement label stored matches the select case taken (acked ↔ Acked(), nacked ↔ Nacked())", wit...)
 	}
 	// the mark is set on the message after the goroutine captured the old context
 	okMark := false
@@ -762,25 +768,41 @@ func c20Observe(c *Check, P string, fn *ssa.Function, kind string, setters, gett
 	}
 	errNil, errSet := NilEdges(dcl, IsLoadOfCell(cell))
 	c.Floor(P+".O3", kind+": test of the named error result in the deferred closure", len(errNil), 1)
-	nl := 0
-	AllInstrs(dcl, func(in ssa.Instruction) {
+	label := func(in ssa.Instruction) (string, bool) {
 		mu, ok := in.(*ssa.MapUpdate)
 		if !ok {
-			return
+			return "", false
 		}
 		v, isS := ConstString(mu.Value)
-		if !isS {
-			return
+		if !isS || (v != "true" && v != "false") {
+			return "", false
 		}
-		nl++
-		switch v {
-		case "true":
-			c.Report(GuardedBy(dcl, mu, errNil), P+".O3", "METRICS-LABEL", dcl, mu.Pos(), kind+" success=true", "success=\"true\" only on the error == nil edge")
-		case "false":
-			c.Report(GuardedBy(dcl, mu, errSet), P+".O3", "METRICS-LABEL", dcl, mu.Pos(), kind+" success=false", "success=\"false\" only on the error != nil edge")
+		return v, true
+	}
+	facts := LastLabelAt(dcl, obs[0], [][]Edge{errNil, errSet}, label)
+	okLab := len(facts) > 0
+	var wit []string
+	sawT, sawF := false, false
+	for _, f := range facts {
+		switch {
+		case f.Took&2 != 0: // error != nil
+			sawF = true
+			if f.Label != "false" {
+				okLab = false
+				wit = append(wit, fmt.Sprintf("a path through the error != nil edge reaches Observe with success=%q", f.Label))
+			}
+		case f.Took&1 != 0: // error == nil
+			sawT = true
+			if f.Label != "true" {
+				okLab = false
+				wit = append(wit, fmt.Sprintf("a path through the error == nil edge reaches Observe with success=%q", f.Label))
+			}
+		default:
+			okLab = false
+			wit = append(wit, "a path reaches Observe without testing the error")
 		}
-	})
-	c.Floor(P+".O3", kind+": success label values", nl, 2)
+	}
+	c.Report(okLab && sawT && sawF, P+".O3", "METRICS-LABEL", dcl, obs[0].Pos(), kind+" success label", "on every path to Observe the last success label stored agrees with (named error == nil)", wit...)
 	// the defer is registered before the inner call on the counted path
 	var innerCalls []ssa.CallInstruction
 	if kind == "publisher" {
